@@ -403,6 +403,17 @@ def main(argv=None):
         merged = m2
         extra_info = ex.get("info", {})
 
+    if tier == "thorough" and getattr(prop, "FUZZ", None) and not os.environ.get("VERIF_NO_FUZZ"):
+        try:
+            fz = fuzz_campaign(prop, seed)
+        except BaseException:
+            traceback.print_exc()
+            print("HARNESS ERROR in fuzz campaign")
+            return 2
+        failures.extend(fz["failures"])
+        merged = merge_stats([_stats_to_dump(merged)] + fz["stats"])
+        extra_info["atheris"] = fz["info"]
+
     # bucket failures: one report per root-cause bucket (smallest case wins)
     by_bucket = {}
     for f in failures:
@@ -476,6 +487,59 @@ def main(argv=None):
         f"wall={wall_s}s evidence-validated-by={how}"
     )
     return 1 if violations else 0
+
+
+def fuzz_campaign(prop, seed):
+    """Atheris campaign over the property's own Hypothesis test (vlib/fuzz.py); every
+    reported failure is re-checked without Atheris before it counts."""
+    import shutil
+    import subprocess
+
+    from .lib import Violation
+
+    cfg = prop.FUZZ
+    procs = cfg.get("procs", 12)
+    runs = cfg.get("runs", 100000)
+    work = os.path.join(ROOT, ".work", f"fuzz_{prop.ID}")
+    shutil.rmtree(work, ignore_errors=True)
+    os.makedirs(work, exist_ok=True)
+    ps = []
+    for k in range(procs):
+        d = os.path.join(work, f"p{k}")
+        cmd = [sys.executable, "-m", "vlib.fuzz", prop.ID, d, str(runs), str(shard_seed(seed, prop.ID + "fuzz", k) % (2**31 - 1) + 1)]
+        if k >= (2 * procs) // 3:
+            cmd.append("corpus")
+        ps.append((d, subprocess.Popen(cmd, cwd=ROOT, stdout=subprocess.DEVNULL, stderr=subprocess.PIPE, text=True)))
+    failures, stats, info = [], [], {"processes": procs, "runs_requested_each": runs, "executions": 0, "property_executions": 0, "skipped": None}
+    for d, p in ps:
+        try:
+            _, err = p.communicate(timeout=cfg.get("timeout", 3600))
+        except subprocess.TimeoutExpired:
+            p.kill()
+            _, err = p.communicate()
+            info["skipped"] = "a fuzz process hit the wall budget (inconclusive)"
+        import re
+
+        m = re.search(r"Done (\d+) runs", err or "")
+        if m:
+            info["executions"] += int(m.group(1))
+        try:
+            res = json.load(open(os.path.join(d, "result.json")))
+        except (OSError, ValueError):
+            continue
+        if res.get("skipped"):
+            info["skipped"] = res["skipped"]
+        info["property_executions"] += res.get("runs", 0)
+        if res.get("stats"):
+            stats.append(res["stats"])
+        f = res.get("failure")
+        if f:
+            try:
+                prop.check(f["case"], Stats())
+            except Violation:
+                failures.append(f)
+    shutil.rmtree(work, ignore_errors=True)
+    return {"failures": failures, "stats": stats, "info": info}
 
 
 def _stats_to_dump(m):
